@@ -4,6 +4,11 @@ SUB-1  every closure variable a handler rebinds or mutates is a local of the fun
        inside it) -- not of the operator factory, whose closure is shared by every subscription of the piped observable
 SUB-2  no handler and no subscribe function calls a method of a mutable object kept at module level (one object for the whole
        process: two subscriptions alive at the same time share it)
+SUB-3  every subscription an operator makes passes a handler for each of the three channels (or a whole observer): a missing
+       on_error swallows the source's error, a missing on_completed leaves the subscriber -- and everything downstream that acts at
+       completion: reducers, file.write closing its file -- waiting forever; and the source is subscribed at most once per path
+GEN-3  the function an operator factory returns (the thing applied to the source) yields a value on every path: one that falls off its
+       end makes operator(source) None for the sources taking that path
 GEN-1  a one-shot iterator (generator expression, map / filter / zip / iter / reversed / enumerate object) created in a factory is
        not consumed inside a function the factory returns (the second application of the operator would find it exhausted)
 """
@@ -132,6 +137,199 @@ def rule_sub2(ctx: Ctx) -> RuleResult:
     return r
 
 
+# subscriptions that leave a channel out on purpose: (module, receiver) -> (channels left out, reason)
+SUB3_EXEMPT = {
+    ("rxsci/operators/multiplex.py", "outer_group"): (
+        {"on_error", "on_completed"}, "the outer observable of demux is the template of the group and only relays items; the stream's end comes from the mux source"),
+    ("rxsci/operators/with_latest_from.py", "child"): (
+        {"on_completed"}, "with_latest_from keeps the latest value of a child after the child has completed"),
+}
+
+
+def rule_sub3(ctx: Ctx) -> RuleResult:
+    r = RuleResult("SUB-3", "every subscription made by an operator handles on_next, on_error and on_completed (or hands over a whole observer), and a "
+                            "subscribe function subscribes its source at most once on a path")
+    prog = ctx.program
+    # the subscriptions of the modules in scope, and those of the subscribe functions of the sites in scope (a site built by a helper
+    # of another module belongs to the module that calls the helper)
+    cands, seen_nodes = [], set()
+    for rel, m in sorted(prog.by_relpath.items()):
+        if (ctx.scope is not None and rel not in ctx.scope) or not rel.startswith("rxsci/"):
+            continue
+        cands += [(rel, m, n) for n in ast.walk(m.tree)]
+    for site in ctx.sites:
+        if site.subscribe_fn is not None:
+            cands += [(site.module.relpath, site.module, n) for n in ast.walk(site.subscribe_fn)]
+    for rel, m, n in cands:
+        if True:
+            if not (isinstance(n, ast.Call) and isinstance(n.func, ast.Attribute) and n.func.attr in ("subscribe", "subscribe_")) or id(n) in seen_nodes:
+                continue
+            seen_nodes.add(id(n))
+            fn = m.enclosing_function(n)
+            if fn is None:
+                continue
+            if any(isinstance(a, ast.Starred) for a in n.args) or any(k.arg is None for k in n.keywords):
+                raise AnalysisError("%s: a subscription is made with */** arguments; its handlers cannot be told" % m.where(n))
+            r.instances += 1
+            recv = ast.unparse(n.func.value)
+            kws = {k.arg for k in n.keywords}
+            pos = list(n.args)
+            # the first positional argument is either a whole observer or the on_next function: it is a function when it names a def /
+            # lambda / bound partial visible here, an observer when it names a parameter of an enclosing function
+            whole = False
+            if pos and n.func.attr == "subscribe":
+                a0 = pos[0]
+                if isinstance(a0, ast.Name):
+                    f, kind = fn, None
+                    while f is not None and kind is None:
+                        sc = m.scopes.get(f)
+                        if sc is not None and a0.id in sc.params:
+                            kind = "param"
+                        elif any(isinstance(g, ast.FunctionDef) and g.name == a0.id and m.enclosing_function(g) is f for g in ast.walk(f)):
+                            kind = "def"
+                        elif sc is not None and a0.id in sc.locals:
+                            kind = "local"
+                        f = m.enclosing_function(f)
+                    if kind == "param":
+                        whole = True
+                    elif kind is None or kind == "local":
+                        raise AnalysisError("%s: cannot tell whether '%s' given to subscribe is an observer or a function" % (m.where(n), a0.id))
+                elif not isinstance(a0, (ast.Lambda, ast.Call, ast.Attribute)):
+                    raise AnalysisError("%s: unrecognised first argument of subscribe: %s" % (m.where(n), ast.unparse(a0)[:40]))
+            if whole:
+                r.ob(True)
+                continue
+            order = ("on_next", "on_error", "on_completed")
+            have = set(kws) | set(order[:len(pos)])
+            missing = {c for c in order if c not in have}
+            ex = SUB3_EXEMPT.get((rel, recv))
+            if ex is not None:
+                missing -= ex[0]
+            r.groups.add((rel, recv))
+            r.ob(not missing, lambda n=n, missing=missing, recv=recv, rel=rel, fn=fn: Finding(
+                "SUB-3", "%s::%s{%s.%s}" % (rel, m.scopes[fn].qualname if fn in m.scopes else fn.name, recv, n.func.attr), m.where(n),
+                "the subscription to %s passes no %s: %s" % (recv, " / ".join(sorted(missing)), "; ".join(
+                    ["an error of the source is swallowed (RxPY's default handler) instead of reaching the subscriber"] * ("on_error" in missing) +
+                    ["the end of the source never reaches the subscriber: nothing downstream that acts at completion (reduce results, a file being "
+                     "closed) happens"] * ("on_completed" in missing) + ["the items of the source are dropped"] * ("on_next" in missing)))))
+    # at most one subscription of the source per path of a subscribe function
+    for site in ctx.sites:
+        sm, sfn = site.module, site.subscribe_fn
+        if sfn is None:
+            continue
+        try:
+            paths = ctx.fn_paths(sm, sfn, roles=site.roles, ctxb=site.ctx or None)
+        except AnalysisError:
+            continue
+        for p in paths:
+            r.paths += 1
+            subs = {}
+            for e in p.trace:
+                if e.k == "call" and e.d.get("method") in ("subscribe", "subscribe_") and not e.d.get("in_comp") and not e.d.get("in_loop"):
+                    b = e.d.get("base")
+                    if b is not None and b[0] in ("free", "param", "arg") and not any(x.k == "loopiter" for x in p.trace):
+                        subs.setdefault(b, []).append(e)
+            dup = [(b, es) for b, es in subs.items() if len(es) > 1]
+            r.ob(not dup, lambda dup=dup, p=p, site=site: Finding(
+                "SUB-3", "%s::%s{%s subscribed twice}" % (site.anchor_rel, site.short, show(dup[0][0])), dup[0][1][1].where(),
+                "%s is subscribed %d times on one path of the subscribe function: a hot or asynchronous source delivers every item %d times" % (
+                    show(dup[0][0]), len(dup[0][1]), len(dup[0][1])), trace_of(p)))
+    r.require_instances(ctx.scaled(40))
+    return r
+
+
+def _always_ends(stmts):
+    """every path through the statement list ends in `return <value>` or `raise` (None: a bare return / a fall-through exists)"""
+    if not stmts:
+        return False
+    s = stmts[-1]
+    if isinstance(s, ast.Return):
+        return s.value is not None
+    if isinstance(s, ast.Raise):
+        return True
+    if isinstance(s, ast.If):
+        return bool(s.orelse) and _always_ends(s.body) and _always_ends(s.orelse)
+    if isinstance(s, (ast.With,)):
+        return _always_ends(s.body)
+    if isinstance(s, ast.Try):
+        if s.finalbody and _always_ends(s.finalbody):
+            return True
+        return (_always_ends(s.orelse) if s.orelse else _always_ends(s.body)) and all(_always_ends(h.body) for h in s.handlers)
+    if isinstance(s, ast.While) and isinstance(s.test, ast.Constant) and s.test.value is True and not any(isinstance(x, ast.Break) for x in ast.walk(s)):
+        return True
+    if isinstance(s, ast.Match):
+        return any(isinstance(c.pattern, ast.MatchAs) and c.pattern.pattern is None and c.guard is None for c in s.cases) and all(_always_ends(c.body) for c in s.cases)
+    return False
+
+
+def _own_returns(fn):
+    out, st = [], list(fn.body)
+    while st:
+        x = st.pop()
+        if isinstance(x, (ast.FunctionDef, ast.AsyncFunctionDef, ast.Lambda, ast.ClassDef)):
+            continue
+        if isinstance(x, ast.Return):
+            out.append(x)
+        st.extend(ast.iter_child_nodes(x))
+    return out
+
+
+def rule_gen3(ctx: Ctx) -> RuleResult:
+    r = RuleResult("GEN-3", "the function an operator factory returns yields a value on every path (no fall-through, no bare return): operator(source) "
+                            "is an observable for every kind of source")
+    prog = ctx.program
+    done = set()
+
+    def check(rel, m, gname, f):
+        rets = _own_returns(f)
+        if not any(x.value is not None for x in rets):
+            return        # a procedure (a subscribe function without disposable, a callback)
+        r.instances += 1
+        r.groups.add((rel, gname, f.name))
+        bare = [x for x in rets if x.value is None]
+        ok = _always_ends(f.body) and not bare
+        r.ob(ok, lambda: Finding(
+            "GEN-3", "%s::%s.%s{returns}" % (rel, gname, f.name), m.where(bare[0] if bare else f),
+            "%s, the function that builds the operator's observable (inside %s), yields a value on some paths and %s on another: for the sources that "
+            "take that path the operator evaluates to None and the pipeline cannot be built" % (f.name, gname, "returns nothing" if bare else "falls off its end")))
+    # the functions around every construction site (MuxObservable(subscribe) / rx.create(subscribe)): they build the observable
+    for site in ctx.sites:
+        cm = getattr(site, "call_module", None) or site.module
+        f = cm.enclosing_function(site.call)
+        while f is not None:
+            if isinstance(f, ast.FunctionDef) and id(f) not in done and not any(isinstance(x, (ast.Yield, ast.YieldFrom)) for x in ast.walk(f)):
+                done.add(id(f))
+                g = cm.enclosing_function(f)
+                check(cm.relpath, cm, g.name if isinstance(g, ast.FunctionDef) else "<module>", f)
+            f = cm.enclosing_function(f)
+    for rel, m in sorted(prog.by_relpath.items()):
+        if (ctx.scope is not None and rel not in ctx.scope) or not rel.startswith("rxsci/"):
+            continue
+        for g in ast.walk(m.tree):
+            if not isinstance(g, ast.FunctionDef):
+                continue
+            returned = set()
+            for x in _own_returns(g):
+                for v in (x.value.elts if isinstance(x.value, ast.Tuple) else [x.value]):
+                    if isinstance(v, ast.Name):
+                        returned.add(v.id)
+            # one level of aliasing:  operator = _a if cond else _b;  return operator
+            for s in g.body:
+                if isinstance(s, ast.Assign) and any(isinstance(tg, ast.Name) and tg.id in returned for tg in s.targets):
+                    returned |= {x.id for x in ast.walk(s.value) if isinstance(x, ast.Name)}
+            for f in g.body:
+                if not (isinstance(f, ast.FunctionDef) and f.name in returned):
+                    continue
+                if id(f) in done:
+                    continue
+                done.add(id(f))
+                if any(isinstance(x, (ast.Yield, ast.YieldFrom)) for x in ast.walk(f)):
+                    continue
+                check(rel, m, g.name, f)
+    r.require_instances(ctx.scaled(40))
+    return r
+
+
 ONE_SHOT_CALLS = ("map", "filter", "zip", "iter", "reversed", "enumerate")
 
 
@@ -180,4 +378,4 @@ def rule_gen1(ctx: Ctx) -> RuleResult:
     return r
 
 
-RULES = [rule_sub1, rule_sub2, rule_gen1]
+RULES = [rule_sub1, rule_sub2, rule_sub3, rule_gen1, rule_gen3]
